@@ -75,29 +75,52 @@ Definition sigil_kind (kind : bytes) : N :=
 Definition starts_ok (obs : bytes) : bool := is_prefix (bs "ok") obs.
 
 (* the parts an observable reports must re-concatenate to the input *)
-Definition reassembles (kind s obs : bytes) : bool :=
-  match split_on 9 obs with
-  | _ :: p1 :: p2 :: rest =>
-      if bytes_eqb kind (bs "server") then
-        bytes_eqb s p1 && bytes_eqb p2 (bs "-1") || bytes_eqb s (p1 ++ [58] ++ p2)
-        || match cut_last 58 s with            (* port written with leading zeros *)
-           | Some (h, p) => bytes_eqb h p1 && match parse_dec p with Some n => bytes_eqb (print_dec n) p2 | None => false end
-           | None => false
-           end
-      else match rest with
-           | [m] => if bytes_eqb m (bs "domainless") then bytes_eqb s (sigil_kind kind :: p1)
-                    else bytes_eqb s (sigil_kind kind :: p1 ++ [58] ++ p2)
-           | _ => bytes_eqb s (sigil_kind kind :: p1 ++ [58] ++ p2)
-           end
-  | _ => false
+(* every way of cutting s at one of its colons *)
+Fixpoint colon_splits (s : bytes) : list (bytes * bytes) :=
+  match s with
+  | [] => []
+  | c :: r =>
+      (if c =? 58 then [([], r)] else []) ++ map (fun ab => (c :: fst ab, snd ab)) (colon_splits r)
   end.
+
+(* the observable is "ok", TAB, part, TAB, part (then TAB and a marker for room IDs); identifiers
+   may themselves contain TABs, so the test is: SOME cut of the input at a colon prints as the
+   observable *)
+Definition reassembles_gen (zeros_ok : bool) (kind s obs : bytes) : bool :=
+  let line a b := bs "ok" ++ tab ++ a ++ tab ++ b in
+  if bytes_eqb kind (bs "server") then
+    bytes_eqb obs (line s (bs "-1"))
+    || existsb (fun hp =>
+         bytes_eqb obs (line (fst hp) (snd hp))
+         || zeros_ok && match parse_dec (snd hp) with
+                        | Some n => bytes_eqb obs (line (fst hp) (print_dec n))
+                        | None => false
+                        end) (colon_splits s)
+  else
+    match s with
+    | c :: rest =>
+        (c =? sigil_kind kind) &&
+        (if bytes_eqb kind (bs "room") then
+           bytes_eqb obs (line rest [] ++ tab ++ bs "domainless")
+           || existsb (fun od => bytes_eqb obs (line (fst od) (snd od) ++ tab ++ bs "domain")) (colon_splits rest)
+         else existsb (fun ld => bytes_eqb obs (line (fst ld) (snd ld))) (colon_splits rest))
+    | [] => false
+    end.
+
+(* the reported parts re-concatenate to the input; for a server name: host, and host : port with
+   the port NUMBER in decimal *)
+Definition reassembles : bytes -> bytes -> bytes -> bool := reassembles_gen false.
+(* ... up to leading zeros of the port text (the one way known not to: F101) *)
+Definition reassembles_up_to_port_zeros : bytes -> bytes -> bytes -> bool := reassembles_gen true.
 
 Definition prop_parse (kind s obs : bytes) : bytes :=
   let want := strict_kind kind s in
   if negb (Bool.eqb want (starts_ok obs)) then
     (if want then bs "FAIL in-grammar-but-refused"
      else bs "FAIL accepted-not-in-grammar: " ++ departure_kind kind s)
-  else if want && negb (reassembles kind s obs) then bs "FAIL parts-do-not-reassemble"
+  else if want && negb (reassembles kind s obs) then
+    bs "FAIL parts-do-not-reassemble" ++
+    (if reassembles_up_to_port_zeros kind s obs then bs ": port-leading-zero" else [])
   else bs "ok".
 
 (* ---- bounded-exhaustive enumeration: all extensions of a prefix by at most n symbols, depth first ---- *)
@@ -148,21 +171,24 @@ Definition prop_enum (args : list bytes) : bytes :=
   match args with
   | [kind; alpha; prefix; n; obs] =>
       let lines := match obs with [] => [] | _ => split_on 10 obs end in
-      let step s (st : list bytes * (list bytes * list bytes)) :=
-        let '(pending, (extra, missing)) := st in
+      let step s (st : list bytes * (list bytes * (list bytes * list bytes))) :=
+        let '(pending, (extra, (missing, zeros))) := st in
         let want := strict_kind kind s in
         match pending with
         | l :: pending' =>
             if is_prefix (s ++ tab ++ bs "ok") l then
-              (pending', ((if want && reassembles kind s (drop (S (length s)) l) then extra else s :: extra), missing))
-            else (pending, (extra, if want then s :: missing else missing))
-        | [] => (pending, (extra, if want then s :: missing else missing))
+              let o := drop (S (length s)) l in
+              if want && reassembles kind s o then (pending', (extra, (missing, zeros)))
+              else if want && reassembles_up_to_port_zeros kind s o then (pending', (extra, (missing, s :: zeros)))
+              else (pending', (s :: extra, (missing, zeros)))
+            else (pending, (extra, ((if want then s :: missing else missing), zeros)))
+        | [] => (pending, (extra, ((if want then s :: missing else missing), zeros)))
         end in
-      let '(pending, (extra, missing)) :=
-        enum_fold alpha step (N.to_nat (n_of n)) (rev prefix) (lines, ([], [])) in
-      match pending, extra, missing with
-      | [], [], [] => bs "ok"
-      | _, _, _ =>
+      let '(pending, (extra, (missing, zeros))) :=
+        enum_fold alpha step (N.to_nat (n_of n)) (rev prefix) (lines, ([], ([], []))) in
+      match pending, extra, missing, zeros with
+      | [], [], [], [] => bs "ok"
+      | _, _, _, _ =>
           bs "FAIL" ++
           (match extra with
            | [] => []
@@ -170,6 +196,7 @@ Definition prop_enum (args : list bytes) : bytes :=
                   join_bytes (bs ",") (dedupe (map (departure_kind kind) extra)) ++ summary (rev extra)
            end) ++
           (match missing with [] => [] | _ => bs "; in-grammar-but-refused" ++ summary (rev missing) end) ++
+          (match zeros with [] => [] | _ => bs "; parts-do-not-reassemble port-leading-zero" ++ summary (rev zeros) end) ++
           (match pending with [] => [] | _ => bs "; unmatched-lines" end)
       end
   | _ => bs "badargs"
@@ -306,7 +333,16 @@ Definition limited_fields (type : bytes) (sk : option bytes) (sender room : byte
 Definition prop_verdict (want obs : bytes) : bytes :=
   if bytes_eqb want obs then bs "ok" else bs "FAIL want=" ++ want ++ bs " impl=" ++ obs.
 
-(* events that are otherwise valid: the verdict must be the size class of the property text *)
+(* events that are otherwise valid: the verdict must be the size class of the property text;
+   an event whose sender is not a user ID (outside the pseudo-ID version) must be refused -
+   with either refusal class, never ok and never persistable - whatever its sizes *)
+Definition prop_event_verdict (v : bytes) (json_len : N) (type : bytes) (sk : option bytes)
+    (sender room obs : bytes) : bytes :=
+  if negb (bytes_eqb v pseudo_id_version) && negb (sender_well_formed sender) then
+    if bytes_eqb obs (bs "err") || bytes_eqb obs (bs "toolarge") then bs "ok"
+    else bs "FAIL malformed-sender want=refused impl=" ++ obs
+  else prop_verdict (size_class_text (size_class_of json_len (limited_fields type sk sender room))) obs.
+
 Definition prop_receive (args : list bytes) : bytes :=
   match args with
   | [v; text; obs] =>
@@ -315,9 +351,7 @@ Definition prop_receive (args : list bytes) : bytes :=
           match str_member (bs "type") j, opt_str_member (bs "state_key") j,
                 str_member (bs "sender") j, str_member (bs "room_id") j with
           | Some type, Some sk, Some sender, Some room =>
-              prop_verdict
-                (size_class_text (size_class_of (byte_length text) (limited_fields type sk sender room)))
-                obs
+              prop_event_verdict v (byte_length text) type sk sender room obs
           | _, _, _, _ => bs "badargs"
           end
       | None => bs "badargs"
@@ -328,10 +362,7 @@ Definition prop_receive (args : list bytes) : bytes :=
 Definition prop_build (args : list bytes) : bytes :=
   match args with
   | [v; type; has_sk; sk; sender; room; json_len; obs] =>
-      prop_verdict
-        (size_class_text (size_class_of (n_of json_len)
-           (limited_fields type (opt_of has_sk sk) sender room)))
-        obs
+      prop_event_verdict v (n_of json_len) type (opt_of has_sk sk) sender room obs
   | _ => bs "badargs"
   end.
 
